@@ -1156,20 +1156,28 @@ class Interp:
         raise CannotEncode('lambda')
 
     def ex_ListComp(self, node):
-        if len(node.generators) != 1 or node.generators[0].ifs or node.generators[0].is_async:
+        if len(node.generators) != 1 or node.generators[0].is_async:
             raise CannotEncode('complex comprehension')
         gen = node.generators[0]
         it = self.eval(gen.iter)
         out = []
+        guarded = False
         fr = self.frame
         for g, v in self.models.iterate(it, node):
-            if g is not True:
-                raise CannotEncode('comprehension over guarded iterable')
             saved = dict(fr.vars)
             self.assign_target(gen.target, v, unconditional=True)
-            out.append(self.eval(node.elt))
+            keep = g
+            for cond in gen.ifs:
+                keep = simp_bool(land(keep, self.truth(self.eval(cond))))
+            if keep is not False:
+                out.append((keep, self.eval(node.elt)))
+                guarded = guarded or keep is not True
             fr.vars = saved
-        return out
+        if guarded:
+            # elements present only under a condition (a filter on symbolic data, or a guarded source): a guarded list, which
+            # loops and the set/array models can consume
+            return GuardedList(out)
+        return [v for _, v in out]
 
     ex_GeneratorExp = ex_ListComp
 
